@@ -1048,10 +1048,11 @@ class OpaqueEnumParsable(Vector):
     @classmethod
     def _parse(cls, parsable):
         opaque, parsed_length = super(OpaqueEnumParsable, cls)._parse(parsable)
-        code = six.ensure_text(
-            b''.join([six.int2byte(opaque_item) for opaque_item in opaque]),
-            cls.get_encoding()
-        )
+        code = b''.join([six.int2byte(opaque_item) for opaque_item in opaque])
+        try:
+            code = six.ensure_text(code, cls.get_encoding())
+        except UnicodeError as e:
+            six.raise_from(InvalidValue(code, cls), e)
 
         try:
             parsed_object = next(iter([
